@@ -24,7 +24,11 @@
       internal/delivery/lmtp/session.go  Session.Handle, handleCommand, handleMAIL/RCPT/DATA/RSET/QUIT
       internal/delivery/parser/parser.go ReadDataCommand
       internal/sasl/server.go            handleConnection, handleAuth, handlePlain, handleLogin
-    Bugs included: HandleIdle ignores every read error. No proofs here. *)
+    Models the tree with the C20 fix wave applied (fixes/C20-1 .. C20-6):
+    HandleIdle returns on a non-timeout read error and logs the client out
+    after idleTimeout; [Timeout] in IDLE means that limit, not one of the 50 ms
+    poll deadlines (those are internal steps that change nothing).
+    No proofs here. *)
 From Coq Require Import String Ascii List Bool ZArith NArith Arith.
 From Raven Require Import Base.GoStr.
 Import ListNotations.
@@ -38,7 +42,9 @@ Inductive event :=
 
 (** what the server writes, projected: continuation request, tagged
     completion, BYE, untagged "* BAD Invalid command format" *)
-Inductive reply := RCont | RTag | RBye | RStarBad.
+(** [RClose] is not a reply: it marks that the SERVER closed the connection
+    itself while the handler goes on (every later read of that handler fails). *)
+Inductive reply := RCont | RTag | RBye | RStarBad | RClose.
 
 (* ------------------------------------------------------------------ *)
 (** * IMAP *)
@@ -48,6 +54,8 @@ Inductive imode :=
 | IAuthWait       (* HandleAuthenticate: conn.Read after "+ " *)
 | ILiteral        (* HandleAppendWithReader: io.ReadFull(reader, messageData) *)
 | ILitCRLF        (* ... reader.Read(crlfBuf) *)
+| IDiscard        (* a refused APPEND consumes its LITERAL+ literal: io.CopyN(io.Discard, reader, size) *)
+| IDiscardCRLF    (* ... and the CRLF after it *)
 | IIdle           (* HandleIdle: poll loop, conn.Read(buf) *)
 | IHandshake      (* HandleStartTLS: tlsConn.Handshake() *)
 | IDone.          (* handler returned; HandleConnection's deferred conn.Close() ran *)
@@ -59,6 +67,7 @@ Definition i_init (tls : bool) : istate := mk_i ICmd false false tls.
 Definition imode_eqb (a b : imode) : bool :=
   match a, b with
   | ICmd, ICmd | IAuthWait, IAuthWait | ILiteral, ILiteral | ILitCRLF, ILitCRLF
+  | IDiscard, IDiscard | IDiscardCRLF, IDiscardCRLF
   | IIdle, IIdle | IHandshake, IHandshake | IDone, IDone => true
   | _, _ => false
   end.
@@ -115,7 +124,7 @@ Definition i_dispatch (s : istate) (l : str) (ok : bool) : istate * list reply :
   let line := trim_space l in
   match fields line with
   | [] => (s, [])
-  | [_] => (s, [RStarBad])
+  | [_] => (s, [RTag])                                     (* the tag alone: tagged BAD (9a07da0) *)
   | _ :: c :: args =>
       let cmd := to_upper c in
       let nparts := 2 + length args in
@@ -149,13 +158,20 @@ Definition i_dispatch (s : istate) (l : str) (ok : bool) : istate * list reply :
       else if cmd_is cmd "APPEND" then
         if negb (i_auth s) then (s, [RTag])
         else if nparts <? 3 then (s, [RTag])
-        else if negb ok then (s, [RTag])                       (* user store / folder lookup failed *)
-        else match append_literal line with
-             | None => (s, [RTag])
-             | Some (size, plus) =>
-                 if ((size <=? 0) || (max_append <? size))%Z then (s, [RTag])
-                 else (set_mode s ILiteral, if plus then [] else [RCont])
-             end
+        else
+          (* aa7fd6d: every refusal after this point first consumes a non-synchronizing literal *)
+          let lit := append_literal line in
+          let refuse := match lit with
+                        | Some (size, true) => if (0 <? size)%Z then (set_mode s IDiscard, []) else (s, [RTag])
+                        | _ => (s, [RTag])
+                        end in
+          if negb ok then refuse                                 (* user store / folder lookup failed *)
+          else match lit with
+               | None => (s, [RTag])
+               | Some (size, plus) =>
+                   if ((size <=? 0) || (max_append <? size))%Z then refuse
+                   else (set_mode s ILiteral, if plus then [] else [RCont])
+               end
       else if cmd_is cmd "LOGOUT" then (set_mode s IDone, [RBye; RTag])
       else if cmd_is cmd "STARTTLS" then
         (* connection.go: `auth.HandleStartTLS(...); return` — the handler ends even when STARTTLS was refused *)
@@ -189,10 +205,17 @@ Definition istep (s : istate) (e : event) : istate * list reply :=
       | _ => (set_mode s ICmd, [RTag])
       end
   | ILitCRLF => (set_mode s ICmd, [RTag])          (* every outcome: "continue anyway" *)
+  | IDiscard =>
+      match e with
+      | Data _ _ => (set_mode s IDiscardCRLF, [])
+      | _ => (set_mode s ICmd, [RTag])
+      end
+  | IDiscardCRLF => (set_mode s ICmd, [RTag])
   | IIdle =>
       match e with
       | Data l _ => if is_done_word l then (set_mode s ICmd, [RTag]) else (s, [])
-      | _ => (s, [])                               (* err != nil: nothing happens, poll again *)
+      | Timeout => (set_mode s ICmd, [RBye; RClose])   (* idleTimeout reached: "* BYE Autologout", conn.Close(), return *)
+      | Eof | ReadErr => (set_mode s ICmd, [])         (* a non-timeout read error: return to the command loop *)
       end
   | IHandshake =>
       match e with
@@ -210,7 +233,9 @@ Definition ideadline (m : imode) : option N :=
   | IAuthWait => Some 30000%N     (* 30 * time.Second *)
   | ILiteral => Some 300000%N     (* 5 * time.Minute *)
   | ILitCRLF => Some 100%N        (* 100 * time.Millisecond *)
-  | IIdle => Some 550%N           (* Sleep(500ms) + 50ms read deadline per poll *)
+  | IDiscard => Some 300000%N
+  | IDiscardCRLF => Some 100%N
+  | IIdle => Some 1800000%N       (* idleTimeout; the 50 ms poll deadlines are internal to the loop *)
   | IHandshake => Some 1800000%N  (* inherited from the loop iteration that read STARTTLS *)
   | IDone => None
   end.
@@ -344,12 +369,15 @@ Definition s_reply_count (l : str) : nat :=
   | _ => 0
   end.
 
-Definition sstep (m : smode) (e : event) : smode * nat :=
+(** [shut]: Server.Shutdown has begun (s.shutdown is closed); the handler
+    looks at it after every command it has answered *)
+Definition sstep (shut : bool) (m : smode) (e : event) : smode * nat :=
   match m with
   | SCmd =>
       match e with
       | Data l _ => if (max_token <=? N.of_nat (length l))%N then (SDone, 0)   (* bufio.ErrTooLong ends scanner.Scan *)
-                    else (SCmd, s_reply_count l)
+                    else if (length (split_tab l) <? 2) then (SCmd, 0)          (* "Invalid SASL request format": continue *)
+                    else (if shut then SDone else SCmd, s_reply_count l)
       | _ => (SDone, 0)
       end
   | SDone => (SDone, 0)
@@ -373,8 +401,8 @@ Fixpoint lrun (cf : lconf) (s : lstate) (es : list event) : lstate * list (list 
   | e :: es' => let '(s1, r) := lstep cf s e in let '(s2, rs) := lrun cf s1 es' in (s2, r :: rs)
   end.
 
-Fixpoint srun (m : smode) (es : list event) : smode * list nat :=
+Fixpoint srun (shut : bool) (m : smode) (es : list event) : smode * list nat :=
   match es with
   | [] => (m, [])
-  | e :: es' => let '(m1, r) := sstep m e in let '(m2, rs) := srun m1 es' in (m2, r :: rs)
+  | e :: es' => let '(m1, r) := sstep shut m e in let '(m2, rs) := srun shut m1 es' in (m2, r :: rs)
   end.
